@@ -10,10 +10,10 @@ D = decimal.Decimal
 
 ECU_NAMES = ["ECU_A", "ECU_B", "Gw", "Body", "Diag", "EngineControlUnit_with_a_very_long_name_1", "AB", "Brake_Ctl"]
 TEXTS_LATIN = ["plain text", "two words, comma", "café °C", "100%", "a/b (c)", "x=1; y=2", "semi;colon", "ends with quote\"", "back\\slash",
-               "line one\n  indented line two", "trailing blank \nnext", "tab\there", "BO_ 12 Fake: 8 X", "say \"hi\" there", "a; b"]
+               "line one\n  indented line two", "trailing blank \nnext", "tab\there", "BO_ 12 Fake: 8 X", "say \"hi\" there", "a; b", "erste Zeile\nzweite Zeile: café °C", "one\ntwo\nthree: ±5 °C"]
 # texts that trigger known finding C05-comment-quote-semicolon: a quote followed by a semicolon inside a comment
 TRIGGER_TEXTS = ["CM_ SG_ 1 x \"inner\";", "a \"; b", "x\" ;y"]
-TEXTS_UTF8 = TEXTS_LATIN + ["µs €", "Ω ohm"]
+TEXTS_UTF8 = TEXTS_LATIN + ["µs €", "Ω ohm", "first\nsecond: 10 µs € Ω"]
 UNITS = ["", "V", "km/h", "rpm", "°C", "m/s^2", "%"]
 CARRIER_FRAME = {"GenMsgCycleTime", "VFrameFormat", "SystemMessageLongSymbol"}
 CARRIER_SIGNAL = {"GenSigCycleTime", "GenSigStartValue", "SystemSignalLongSymbol"}
